@@ -243,12 +243,30 @@ def check_path(g, fails, inp, what_prefix="") -> None:
         bad("critical_edges_are_the_path_edges", sorted(got_edges), list(zip(path, path[1:])))
 
 
+def _sync_return_tie_events(slack: int, record_first: bool) -> List[Dict[str, Any]]:
+    """a blocking stream synchronisation that returns at the very instant (slack 0) the awaited kernel ends, followed by host work:
+    the longest path runs launch -> kernel -> synchronisation edge -> the work after the call (a blocking call itself weighs nothing)"""
+    from hv import synth
+
+    b = 1_000_000
+    evs = [synth.host_op("aten::first_op", b, 5), synth.profiler_step(1, b + 5, 395),
+           synth.host_op("aten::add", b + 10, 20), synth.launch(b + 12, 8, 1)]
+    k = synth.kernel("void gemm_kernel", b + 30, 170 - slack, 7, 1)
+    rec = {"ph": "X", "cat": "cuda_sync", "name": "Stream Sync", "pid": 0, "tid": 7, "ts": b + 40, "dur": 160, "args": {"correlation": 2, "stream": 7}}
+    evs += [rec, k] if record_first else [k, rec]
+    evs += [synth.launch(b + 40, 160, 2, name="cudaStreamSynchronize"), synth.host_op("aten::relu", b + 205, 100), synth.host_op("aten::mul", b + 310, 60),
+            synth.profiler_step(2, b + 400, 20), synth.host_op("aten::sum", b + 402, 10)]
+    return evs
+
+
 def _case(seed: int) -> Dict[str, Any]:
     from hv import cpgen, rt
 
     rng = random.Random(seed)
-    evs = cpgen.gen_cp_events(seed, n_steps=3, n_streams=1 + seed % 3, annotations=bool(seed % 2), n_threads=2 if seed % 4 == 1 else 1)
+    evs = cpgen.gen_cp_events(abs(seed), n_steps=3, n_streams=1 + seed % 3, annotations=bool(seed % 2), n_threads=2 if seed % 4 == 1 else 1)
     inst = 0 if seed % 2 else (0, 1)
+    if seed < 0:  # crafted: -1 .. -4
+        evs, inst = _sync_return_tie_events(slack=(0 if seed in (-1, -2) else 1), record_first=seed in (-1, -3)), 0
     fails: List[Dict[str, Any]] = []
     inp = {"seed": seed, "instance_id": inst, "events": {0: evs}}
     n = 0
@@ -292,8 +310,8 @@ def bounded(ctx):
     from hv import rt
 
     n = 40 if not ctx.thorough else 500
-    res = rt.pmap(_case, [ctx.seed * 97 + i for i in range(n)], ctx.procs)
-    return rt.summarise(res, f"{PROP}.bounded", f"{n} graphs built by the real analysis from generated causally consistent traces; independent longest-path DP; two rounds of random re-weighting "
+    res = rt.pmap(_case, [-1, -2, -3, -4] + [ctx.seed * 97 + i for i in range(n)], ctx.procs)
+    return rt.summarise(res, f"{PROP}.bounded", f"4 crafted traces (a blocking synchronisation returning exactly when / one unit after the awaited kernel ends, followed by host work) + {n} graphs built by the real analysis from generated causally consistent traces; independent longest-path DP; two rounds of random re-weighting "
                         "(0 / 1 / 50 / 500 on ~30% of the edges) with recomputation on the same graph object")
 
 
